@@ -1,7 +1,8 @@
 //! C27: the real `fallible_map_vec` / `fallible_map_box` (chalk-ir/src/fold/in_place.rs, reached
 //! through the `cfg(chalk_verif)` hook `chalk_ir::fold::verif`) run on drop-recording element
 //! types, for every length up to the tier's bound, every failing position, both failure modes
-//! (`Err` return, panic caught by `catch_unwind`) and seven layout situations; the drop log as a
+//! (`Err` return, panic caught by `catch_unwind`) and twelve layout / drop-glue situations
+//! (element types with and without a destructor: a type without drop glue logs nothing); the drop log as a
 //! sorted multiset and the returned contents are compared with the Lean slot model
 //! (`lean/ChalkModel/InPlace.lean`), and the property itself (every element dropped exactly once
 //! on failure, none on success) is evaluated directly on the real run.
@@ -95,6 +96,22 @@ macro_rules! dst_elem {
     };
 }
 
+/// element type without drop glue (`mem::needs_drop` is false): its drops are unobservable
+macro_rules! plain_elem {
+    ($name:ident, { $($field:ident : $fty:ty),* }, $new:expr, $id:expr) => {
+        #[repr(C)]
+        struct $name { $($field: $fty),* }
+        impl Elem for $name {
+            const ZST: bool = false;
+            fn new(id: usize) -> Self { let f: fn(usize) -> Self = $new; f(id) }
+            fn id(&self) -> usize { let f: fn(&Self) -> usize = $id; f(self) }
+        }
+    };
+}
+
+// size 8, align 4, no destructor, id at offset 0 (as `T`) / at offset 4 (as `U`)
+plain_elem!(P8, { id: u32, pad: u32 }, |id| P8 { id: id as u32, pad: 0xC3C3_C3C3 }, |s| s.id as usize);
+plain_elem!(Q8, { pad: u32, id: u32 }, |id| Q8 { pad: 0x3C3C_3C3C, id: id as u32 }, |s| s.id as usize);
 // size 4, align 4
 src_elem!(T4, false, { id: u32 }, |id| T4 { id: id as u32 }, |s| s.id as usize);
 // size 16, align 4 (a multiple of U4's size: `std` may collect such a vector in place by itself)
@@ -112,7 +129,7 @@ dst_elem!(U8, false, { pad: u32, id: u32 }, |id| U8 { pad: 0x5A5A_5A5A, id: id a
 // size 0
 dst_elem!(UZ, true, {}, |_| UZ {}, |_| 0);
 
-pub const LAYOUTS: [&str; 7] = ["same", "same-wide", "diff", "shrink", "zst", "zst-sized", "sized-zst"];
+pub const LAYOUTS: [&str; 12] = ["same", "same-wide", "plain-to-drop", "drop-to-plain", "plain-to-plain", "diff", "plain-diff", "diff-plain", "shrink", "zst", "zst-sized", "sized-zst"];
 
 #[derive(Clone, Copy, PartialEq, Debug)]
 enum Mode {
@@ -149,8 +166,8 @@ struct Obs {
     log_after_result_drop: Vec<(usize, u8)>,
     /// the callback saw an element other than the one at its position
     wrong_element_seen: bool,
-    /// (is_layout_identical::<T,U>(), is_zst::<T>()) as chalk computes them
-    layout: (bool, bool),
+    /// (is_layout_identical::<T,U>(), is_zst::<T>()) as chalk computes them, needs_drop::<T>(), needs_drop::<U>()
+    layout: (bool, bool, bool, bool),
     t_zst: bool,
     u_zst: bool,
 }
@@ -170,9 +187,14 @@ fn u_id<D: Elem>(i: usize) -> usize {
     }
 }
 
-fn layout_of<S, D>() -> (bool, bool) {
-    use std::mem::{align_of, size_of};
-    (size_of::<S>() == size_of::<D>() && align_of::<S>() == align_of::<D>(), size_of::<S>() == 0)
+fn layout_of<S, D>() -> (bool, bool, bool, bool) {
+    use std::mem::{align_of, needs_drop, size_of};
+    (
+        size_of::<S>() == size_of::<D>() && align_of::<S>() == align_of::<D>(),
+        size_of::<S>() == 0,
+        needs_drop::<S>(),
+        needs_drop::<D>(),
+    )
 }
 
 /// the `map` callback: owns `x`; fails at call number `k` in the requested way, otherwise turns
@@ -261,6 +283,11 @@ fn vec_for(layout: &str, n: usize, k: Option<usize>, mode: Mode) -> Option<Obs> 
     Some(match layout {
         "same" => run_vec::<T4, U4>(n, k, mode),
         "same-wide" => run_vec::<T8, U8>(n, k, mode),
+        "plain-to-drop" => run_vec::<P8, U8>(n, k, mode),
+        "drop-to-plain" => run_vec::<T8, Q8>(n, k, mode),
+        "plain-to-plain" => run_vec::<P8, Q8>(n, k, mode),
+        "plain-diff" => run_vec::<P8, U16>(n, k, mode),
+        "diff-plain" => run_vec::<T4, Q8>(n, k, mode),
         "diff" => run_vec::<T4, U16>(n, k, mode),
         "shrink" => run_vec::<T16, U4>(n, k, mode),
         "zst" => run_vec::<TZ, UZ>(n, k, mode),
@@ -273,6 +300,11 @@ fn box_for(layout: &str, mode: Mode) -> Option<Obs> {
     Some(match layout {
         "same" => run_box::<T4, U4>(mode),
         "same-wide" => run_box::<T8, U8>(mode),
+        "plain-to-drop" => run_box::<P8, U8>(mode),
+        "drop-to-plain" => run_box::<T8, Q8>(mode),
+        "plain-to-plain" => run_box::<P8, Q8>(mode),
+        "plain-diff" => run_box::<P8, U16>(mode),
+        "diff-plain" => run_box::<T4, Q8>(mode),
         "diff" => run_box::<T4, U16>(mode),
         "shrink" => run_box::<T16, U4>(mode),
         "zst" => run_box::<TZ, UZ>(mode),
@@ -282,13 +314,19 @@ fn box_for(layout: &str, mode: Mode) -> Option<Obs> {
     })
 }
 
-/// what chalk's two layout tests must answer for the layout name (the Lean driver assumes this)
-fn promised_layout(layout: &str) -> (bool, bool) {
+/// what chalk's two layout tests and `mem::needs_drop` must answer for the layout name (the Lean
+/// driver assumes this): (identical, T zero-sized, T has drop glue, U has drop glue)
+fn promised_layout(layout: &str) -> (bool, bool, bool, bool) {
     match layout {
-        "same" | "same-wide" => (true, false),
-        "zst" => (true, true),
-        "zst-sized" => (false, true),
-        _ => (false, false),
+        "same" | "same-wide" => (true, false, true, true),
+        "plain-to-drop" => (true, false, false, true),
+        "drop-to-plain" => (true, false, true, false),
+        "plain-to-plain" => (true, false, false, false),
+        "plain-diff" => (false, false, false, true),
+        "diff-plain" => (false, false, true, false),
+        "zst" => (true, true, true, true),
+        "zst-sized" => (false, true, true, true),
+        _ => (false, false, true, true),
     }
 }
 
@@ -324,12 +362,18 @@ fn judge(o: &Obs, n: usize, k: Option<usize>, mode: Mode, layout: &str, req: &st
     // expected multiset of destructor runs at the moment the call is left
     let mut want: Vec<(usize, u8)> = vec![];
     if let Some(k) = failing {
+        // only types with drop glue have observable destructor runs
+        let (t_glue, u_glue) = (o.layout.2, o.layout.3);
         for i in 0..k {
-            want.push((uid(i), TAG_U));
+            if u_glue {
+                want.push((uid(i), TAG_U));
+            }
         }
-        want.push((tid(k), TAG_CB));
-        for i in k + 1..n {
-            want.push((tid(i), TAG_T));
+        if t_glue {
+            want.push((tid(k), TAG_CB));
+            for i in k + 1..n {
+                want.push((tid(i), TAG_T));
+            }
         }
     }
     want.sort();
@@ -366,7 +410,7 @@ fn judge(o: &Obs, n: usize, k: Option<usize>, mode: Mode, layout: &str, req: &st
             out.fail(&format!("returned elements {:?}, expected {:?}", o.result, want_ids), req, "wrong_result");
         }
         // dropping the returned value runs each `U` destructor exactly once and nothing else
-        let mut after: Vec<(usize, u8)> = want_ids.iter().map(|&i| (i, TAG_U)).collect();
+        let mut after: Vec<(usize, u8)> = if o.layout.3 { want_ids.iter().map(|&i| (i, TAG_U)).collect() } else { vec![] };
         after.sort();
         if o.log_after_result_drop != after {
             out.fail("dropping the returned value did not drop each mapped element exactly once", req, "result_drop");
